@@ -2,6 +2,7 @@ package main
 
 import (
 	"net/netip"
+	"sync/atomic"
 	"time"
 
 	"github.com/uhppoted/uhppote-core/types"
@@ -10,12 +11,15 @@ import (
 	"verif/harness/internal/fake"
 )
 
+var clientsBuilt int64
+
 // newClient builds the real client around a fake driver (through the `verif` hook).
 func newClient(devices []uhppote.Device, broadcast types.BroadcastAddr) (uhppote.IUHPPOTE, *fake.Driver) {
 	d := &fake.Driver{}
 	bind := types.BindAddrFrom(netip.MustParseAddr("0.0.0.0"), 0)
 	listen := types.ListenAddrFrom(netip.MustParseAddr("0.0.0.0"), 60001)
-	u := uhppote.VerifNew(bind, broadcast, listen, 100*time.Millisecond, devices, false,
+	// the debug flag only adds logging: every second client has it on
+	u := uhppote.VerifNew(bind, broadcast, listen, 100*time.Millisecond, devices, atomic.AddInt64(&clientsBuilt, 1)%2 == 0,
 		func(uhppote.VerifDriver) uhppote.VerifDriver { return d })
 	return u, d
 }
